@@ -1654,6 +1654,19 @@ func (s *manifestStore) generateDescriptor(resp *http.Response, ref registry.Ref
 func calculateDigestFromResponse(resp *http.Response, maxMetadataBytes int64) (digest.Digest, error) {
 	defer resp.Body.Close()
 
+	if maxMetadataBytes <= 0 {
+		maxMetadataBytes = defaultMaxMetadataBytes
+	}
+	// an oversized body is refused up front instead of being silently
+	// truncated at the limit (the callers require a known Content-Length);
+	// no more than maxMetadataBytes are ever read
+	if resp.ContentLength > maxMetadataBytes {
+		return "", fmt.Errorf(
+			"%s %q: response body exceeds MaxMetadataBytes %v: %w",
+			resp.Request.Method, resp.Request.URL,
+			maxMetadataBytes,
+			errdef.ErrSizeExceedsLimit)
+	}
 	body := limitReader(resp.Body, maxMetadataBytes)
 	content, err := io.ReadAll(body)
 	if err != nil {
